@@ -181,6 +181,16 @@ def run(ctx):
                 if t >= 1:
                     vcases.append({"w": wire.case("verify_signable", env, allk, t, False), "meta": {"s": "threshold", "edit": None}})
 
+    # wrapping copies: later changes to the caller's object (or to another envelope wrapped from it) never reach the envelope
+    wcases = [{"w": wire.case("wrap_isolation", v), "meta": {}} for v in payloads[:40] if isinstance(v, (dict, list)) and v]
+
+    def woracle(c, io):
+        if io.startswith("O") and wire.dec(io[1:]):
+            return "the envelope does not carry its own copy of the payload: %s" % wire.dec(io[1:])[0]
+        return None
+    core.run_stream(ctx, core.Stream("wrap_as_signable copies the payload (writes through every nested container of the original and of the envelope)", wcases,
+                                     lambda c, io, mo: None, woracle, model=False))
+
     def voracle(c, io):
         _, env, K, t, gpg = wire.dec(c["w"])
         n = len(E.counting_keys(env, K, bool(gpg)))
